@@ -49,6 +49,22 @@ def memory_from_choices(ch):
     return b''.join(parts), tuple(modes)
 
 
+def with_untouched_sfx(mem, sel):
+    """Give some sfx patterns the contents PICO-8 leaves in patterns nobody edited: no notes, editor mode 0,
+    speed 16, no loop (sel picks which: pattern 0 alone, the first few, or all but one).  Deterministic in sel;
+    consumes nothing from the choice stream."""
+    b = bytearray(mem)
+    if sel % 3 == 0:
+        ids = [0]
+    elif sel % 3 == 1:
+        ids = list(range(0, 1 + sel % 7))
+    else:
+        ids = [i for i in range(64) if i != 1 + sel % 60]
+    for i in ids:
+        b[0x3200 + 68 * i:0x3200 + 68 * (i + 1)] = bytes(64) + b'\x00\x10\x00\x00'
+    return bytes(b)
+
+
 def memory_from_seed(seed):
     return memory_from_choices(Choices(seed))
 
